@@ -757,6 +757,33 @@ def search(res, tier, boost=False):
                                   dict(curve=name, parameter=int(k), parameter_type=kind, point_integer_argument=p_i.tolist(),
                                        point_float_argument=p_f.tolist()))
                     break
+    # 1c. call histories on ONE curve object with ONE parameter array: refilled in place between two calls, and the returned
+    # points modified in place by the caller - every call returns the points of the numbers it is given now
+    for name in SHIPPED:
+        try:
+            curve = make_real(name)
+        except AssertionError:
+            continue
+        L = float(curve.gamma_length)
+        try:
+            xs = _np.array([rng.uniform(0, L) for _ in range(7)])
+            first = _np.array(curve.eval(xs), dtype=float)
+            xs[:] = [rng.uniform(0, L) for _ in range(7)]              # the same array object, new numbers
+            second = _np.array(curve.eval(xs), dtype=float)
+            want = _np.array([_np.asarray(curve.eval(float(v)), dtype=float).reshape(-1) for v in xs]).T
+            got2 = curve.eval(xs)
+            if isinstance(got2, _np.ndarray) and got2.flags.writeable:
+                got2 += 10.0                                               # the caller shifts the points it was handed
+            third = _np.array(curve.eval(xs), dtype=float)
+        except (AssertionError, TypeError, ValueError, IndexError):
+            continue
+        res.count(('eval-history', name), True)
+        for tag, got in (('refilled-in-place', second), ('after-caller-modified-result', third)):
+            if got.shape != want.shape or not _np.allclose(got, want, rtol=0, atol=1e-12 * max(1.0, L)):
+                res.violation('C18:eval-depends-on-history:%s:%s' % (tag, name),
+                              dict(curve=name, parameters=[float(v) for v in xs], got=_np.asarray(got).tolist(), want=want.tolist(),
+                                   history='eval(x); x[:] = new numbers; eval(x); result += 10; eval(x)  (one array object x)'))
+                break
     # 2. random accepted polygons
     n = (60 if tier == 'quick' else 1500) * (3 if boost else 1)
     for k in range(n):
